@@ -1,5 +1,6 @@
 import SimVerif.Driver.Common
 import SimVerif.Model.Tracker
+import SimVerif.Model.BatchProtocol
 namespace SimVerif.Driver.TrkD
 open SimVerif.Wire SimVerif.Tracker SimVerif.Driver
 
@@ -12,6 +13,7 @@ structure St where
   issued : List Nat := []       -- every track id seen in a record so far (ghost, for the freshness oracle)
   handedSeen : List Nat := []   -- ids returned by wasted() so far
   tieScenes : List Nat := []    -- scenes for which some call had more than one optimal choice
+  vshards : Nat := 1            -- voting workers of a batch tracker
 
 /-! parsing -/
 def dropDet (ts : List String) : Option (Option Int × List String) :=
@@ -99,8 +101,69 @@ def dumpState (n : Nat) (st : Tracker.St) : String :=
 
 def implDump (impl : List String) : String :=
   match afterMarker "L" impl with
-  | some rest => joinSp ("L" :: rest)
+  | some rest => joinSp ("L" :: rest.takeWhile (· != "EV"))
   | none => "?"
+
+/-! ### validation of a logged batch-protocol trace against `BatchProtocol.step` -/
+open SimVerif.BatchProtocol in
+/-- events of one thread: `(kind, arg)` -/
+def parseThreads : Nat → List String → Option (List (List (String × Nat)))
+  | 0, _ => some []
+  | n+1, lenT :: ts => do
+    let len ← lenT.toNat?
+    let rec evs : Nat → List String → Option (List (String × Nat) × List String)
+      | 0, ts => some ([], ts)
+      | m+1, k :: a :: ts => do
+        let a ← a.toNat?
+        let (rest, ts') ← evs m ts
+        pure ((k, a) :: rest, ts')
+      | _, _ => none
+    let (e, ts') ← evs len ts
+    let rest ← parseThreads n ts'
+    pure (e :: rest)
+  | _, _ => none
+
+open SimVerif.BatchProtocol in
+/-- Is there an interleaving of the per-thread event sequences that is a path of the protocol model?
+Greedy search: repeatedly fire the head event of the first thread whose head is enabled (events of
+different threads that are both enabled commute). `P n` (consumer probe: `n` results had been sent
+when the slow consumer woke up) is enabled once the model has performed `n` sends and requires
+`n ≤ 1 + #received` (the channel holds at most one result). Returns (valid, steps, final state ok). -/
+def validateTrace (V : Nat) (threads : List (List (String × Nat))) : Bool × Nat × String :=
+  let scenes := (threads.flatMap id).filterMap (fun (k, a) => if k == "D" then some a else none)
+  let total := (threads.map List.length).foldl (· + ·) 0
+  let rec go : Nat → PS → List (List (String × Nat)) → Nat → Bool × Nat × String
+    | 0, _, _, n => (false, n, "fuel")
+    | fuel+1, s, ths, n =>
+      if ths.all List.isEmpty then
+        (decide (s.todo = []) && s.jobs.all (fun j => j.phase == .done) && s.chan.isNone && s.monitor == 0 &&
+         s.delivered.length == scenes.length, n, "end")
+      else
+        let sentCount := (s.jobs.filter (fun j => j.phase == .sent || j.phase == .done)).length
+        -- the consumer receives in the order the results were sent (capacity 1): a send may only be
+        -- scheduled when it is the next result the consumer's log says it received
+        let nextR : Option Nat := ((ths.flatMap id).find? (fun e => e.1 == "R")).map (·.2)
+        let tryFire (e : String × Nat) : Option PS :=
+          match e.1 with
+          | "B" => if e.2 == scenes.length then some s else none
+          | "D" => step V s (.dispatch e.2)
+          | "T" => step V s (.take e.2)
+          | "S" => if nextR.isNone || nextR == some e.2 then step V s (.send e.2) else none
+          | "M" => step V s (.decr e.2)
+          | "R" => step V s (.recv e.2)
+          | "P" => if sentCount ≥ e.2 && e.2 ≤ 1 + s.delivered.length then some s else none
+          | _ => none
+        let rec pick : List (List (String × Nat)) → List (List (String × Nat)) → Option (PS × List (List (String × Nat)))
+          | _, [] => none
+          | before, [] :: after => pick (before ++ [[]]) after
+          | before, (e :: es) :: after =>
+            match tryFire e with
+            | some s' => some (s', before ++ [es] ++ after)
+            | none => pick (before ++ [e :: es]) after
+        match pick [] ths with
+        | some (s', ths') => go fuel s' ths' (n + 1)
+        | none => (false, n, s!"stuck at {ths.map (fun t => t.head?)}")
+  go (total + 2) (init scenes) threads 0
 
 def toEntries (tbl : List (Nat × Nat × Option Rat × Option Rat)) : List Entry :=
   tbl.filterMap (fun (f, t, a, _) => a.map (fun a => { det := f, tid := t, w := AssignX.quantise a }))
@@ -128,7 +191,8 @@ def handleNew (st : St) (args : List String) : St × String :=
         | _ => (0, false)
       if !ok then (st, bad "method") else
       let batch := kind == "bsort" || kind == "bvisual"
-      ({ cfg := { maxIdle := mi, histLen := hist, batchIds := batch, thr := thr }, st := {}, shards := sh, batch := batch },
+      ({ cfg := { maxIdle := mi, histLen := hist, batchIds := batch, thr := thr }, st := {}, shards := sh, batch := batch,
+         vshards := _vsh.toNat?.getD 1 },
        res true true [] s!"thr={thr}")
     | _, _, _ => (st, bad "new args")
   | _ => (st, bad "new")
@@ -206,6 +270,18 @@ def handlePredict (st : St) (args impl : List String) : St × String :=
             | none => false)
           let d := dumpState st.shards st'
           let kDump := d == implDump impl
+          -- batch trackers: the logged protocol events must form a path of the protocol model
+          let (trOk, trSteps, trWhy) : Bool × Nat × String :=
+            match afterMarker "EV" impl with
+            | some (nT :: rest) =>
+              match nT.toNat? >>= (parseThreads · rest) with
+              | some ths => validateTrace st.vshards ths
+              | none => (false, 0, "unparsable trace")
+            | _ => (true, 0, "")
+          let flags := flags ++ flag (trSteps > 0) "trace-validated" ++
+            flag (match afterMarker "EV" impl with | some ts => ts.contains "P" | none => false) "slow-consumer-probe"
+          let kDump := kDump && trOk
+          let d := if trOk then d else d ++ s!" TRACE-INVALID {trWhy}"
           let ties := gs.filterMap (fun (sc, _, es, _) =>
             let aes : List AssignX.Entry := es.map (fun x => { q := x.det + 1, t := x.tid, w := x.w })
             if AssignX.optCount aes st.cfg.thr > 1 then some sc else none)
@@ -244,6 +320,7 @@ def handleOp (st : St) (op : String) (args impl : List String) : St × String :=
         flag (st.st.live.any (fun t => t.scene == sc && expired st.cfg st.st t)) "expired-uncollected-in-scene")
     | none => (st, bad "idle")
   | "clearw", [] => fin (clearWasted st.st) "OK" true (["clear-wasted"] ++ flag (st.st.wasted.length > 0) "clear-nonempty")
+  | "consumer", [_us] => (st, res true true ["consumer-delay"] "")
   | "setaw", [p] =>
     match p.toNat? with
     | some p => fin (setAutoWaste st.st p) "OK" true ["set-auto-waste"]
